@@ -9,6 +9,7 @@ import (
 	"strconv"
 
 	"golang.org/x/tools/go/ssa"
+	"golang.org/x/tools/go/ssa/ssautil"
 )
 
 // exec runs one non-terminator instruction; it may split (several successors) or kill (none).
@@ -989,6 +990,92 @@ func (eng *Engine) funcTableElem(env *Env, tbl, idx ssa.Value) (AV, bool) {
 
 // tableAllocOf: the array allocation behind a table value: a load of the array, the array's address, or a
 // full slice of it ([]T{…} is lowered to new [n]T, element stores, slice).
+// globalArrayInit: for a package-level array variable that is filled element by element in the package
+// initialiser and never written (or address-taken) anywhere else, the values stored into its slots.
+var globalArrayMemo = map[*ssa.Global][]ssa.Value{}
+
+func globalArrayInit(g *ssa.Global) []ssa.Value {
+	if v, ok := globalArrayMemo[g]; ok {
+		return v
+	}
+	globalArrayMemo[g] = nil
+	at, ok := g.Type().Underlying().(*types.Pointer).Elem().Underlying().(*types.Array)
+	if !ok || g.Pkg == nil {
+		return nil
+	}
+	out := make([]ssa.Value, int(at.Len()))
+	var fns []*ssa.Function
+	for f := range ssautil.AllFunctions(g.Pkg.Prog) {
+		if f.Pkg == g.Pkg || (f.Parent() != nil && f.Parent().Pkg == g.Pkg) {
+			fns = append(fns, f)
+		}
+	}
+	for _, f := range fns {
+		for _, b := range f.Blocks {
+			for _, in := range b.Instrs {
+				for _, op := range in.Operands(nil) {
+					if op == nil || *op != ssa.Value(g) {
+						continue
+					}
+					switch t := in.(type) {
+					case *ssa.IndexAddr:
+						for _, rr := range *t.Referrers() {
+							switch x := rr.(type) {
+							case *ssa.Store:
+								k, isK := t.Index.(*ssa.Const)
+								if x.Addr != ssa.Value(t) || f.Name() != "init" || !isK {
+									return nil
+								}
+								i := int(k.Int64())
+								if i < 0 || i >= len(out) || out[i] != nil {
+									return nil
+								}
+								out[i] = x.Val
+							case *ssa.UnOp:
+								if x.Op != token.MUL {
+									return nil
+								}
+							case *ssa.DebugRef:
+							default:
+								return nil
+							}
+						}
+					case *ssa.UnOp:
+						if t.Op != token.MUL {
+							return nil
+						}
+					case *ssa.DebugRef:
+					default:
+						return nil // stored whole, passed on, sliced: not followed
+					}
+				}
+			}
+		}
+	}
+	for _, v := range out {
+		if v == nil {
+			return nil
+		}
+	}
+	globalArrayMemo[g] = out
+	return out
+}
+
+// tableGlobalOf: the package-level array behind a table value (the variable's address or a load of it).
+func tableGlobalOf(v ssa.Value) *ssa.Global {
+	switch t := v.(type) {
+	case *ssa.Global:
+		if globalArrayInit(t) != nil {
+			return t
+		}
+	case *ssa.UnOp:
+		if g, ok := t.X.(*ssa.Global); ok && t.Op == token.MUL && globalArrayInit(g) != nil {
+			return g
+		}
+	}
+	return nil
+}
+
 func tableAllocOf(v ssa.Value) *ssa.Alloc {
 	switch t := v.(type) {
 	case *ssa.Alloc:
@@ -1044,12 +1131,12 @@ func readOnlySlice(sl *ssa.Slice) bool {
 func tableElem(in ssa.Instruction) (tbl, idx ssa.Value, elem ssa.Value, ok bool) {
 	switch t := in.(type) {
 	case *ssa.Index:
-		if tableAllocOf(t.X) != nil {
+		if tableAllocOf(t.X) != nil || tableGlobalOf(t.X) != nil {
 			return t.X, t.Index, t, true
 		}
 	case *ssa.UnOp:
 		if t.Op == token.MUL {
-			if ia, isIA := t.X.(*ssa.IndexAddr); isIA && tableAllocOf(ia.X) != nil {
+			if ia, isIA := t.X.(*ssa.IndexAddr); isIA && (tableAllocOf(ia.X) != nil || tableGlobalOf(ia.X) != nil) {
 				return ia.X, ia.Index, t, true
 			}
 		}
@@ -1058,6 +1145,18 @@ func tableElem(in ssa.Instruction) (tbl, idx ssa.Value, elem ssa.Value, ok bool)
 }
 
 func funcTableOf(v ssa.Value) []*ssa.Function {
+	if g := tableGlobalOf(v); g != nil {
+		// an immutable package-level table of plain functions / method expressions
+		var out []*ssa.Function
+		for _, e := range globalArrayInit(g) {
+			f, ok := e.(*ssa.Function)
+			if !ok {
+				return nil
+			}
+			out = append(out, f)
+		}
+		return out
+	}
 	al := tableAllocOf(v)
 	if al == nil {
 		return nil
